@@ -5,7 +5,10 @@
 (* free blocks as the model has. After every operation the number of blocks the      *)
 (* WRITE reported, the file size and the number of free blocks must be what the       *)
 (* model computes (the allocation of index blocks, short writes, what truncation      *)
-(* frees); after the final REMOVE everything must be free again.                      *)
+(* frees); after the final REMOVE everything must be free again. Only the last rule    *)
+(* is a statement of C05 and counts as a violation; a per-operation difference is      *)
+(* reported as model drift (rule prefix MODEL: a note, not a verdict), because the      *)
+(* property does not prescribe an allocation policy.                                    *)
 EXTENDS BlockMap, Json, IOUtils
 TraceFile == IF "TRACE" \in DOMAIN IOEnv THEN IOEnv.TRACE ELSE "trace.ndjson"
 Trace == ndJsonDeserialize(TraceFile)
@@ -35,14 +38,14 @@ Consume ==
                 sz2 == IF w.done > 0 /\ e.bn + w.done > size THEN e.bn + w.done ELSE size
                 okk == /\ e.done = w.done /\ e.free = Cardinality(st2.free) /\ e.size = SizeReal(sz2)
                        /\ (e.st = "OK") = (w.done > 0)
-            IN /\ (IF okk THEN TRUE ELSE Report("C05,C02:block-map-differs-from-its-model", e,
+            IN /\ (IF okk THEN TRUE ELSE Report("MODEL:block-map-differs-from-its-model", e,
                                                 [done |-> w.done, free |-> Cardinality(st2.free), size |-> SizeReal(sz2)]))
                /\ Put(st2) /\ size' = sz2 /\ live' = okk /\ UNCHANGED <<ssz, nops, other, seg, k0>>
        [] e.ev = "bm" /\ live /\ e.op = "trunc" ->
             LET n == e.n
                 st2 == IF n < size THEN ShrinkTo(St, IF ssz < size THEN size ELSE ssz, n) ELSE St
                 okk == e.st = "OK" /\ e.free = Cardinality(st2.free) /\ e.size = SizeReal(n)
-            IN /\ (IF okk THEN TRUE ELSE Report("C05,C02:block-map-differs-from-its-model", e, [free |-> Cardinality(st2.free), size |-> SizeReal(n)]))
+            IN /\ (IF okk THEN TRUE ELSE Report("MODEL:block-map-differs-from-its-model", e, [free |-> Cardinality(st2.free), size |-> SizeReal(n)]))
                /\ Put(st2) /\ size' = n /\ ssz' = IF n < size \/ ssz <= size THEN n ELSE ssz
                /\ live' = okk /\ UNCHANGED <<nops, other, seg, k0>>
        [] e.ev = "bmend" /\ live ->
